@@ -15,5 +15,12 @@ SPEC = {
         'config': {'memleak': True, 'stubs': STUBS, 'defines': ['-DCPPUTEST_VERIF_HASH_TABLE_SIZE=4'], 'heapcheck': False, 'empty_regex': ['^_ZN[0-9]+[A-Za-z]*FailureC[12]E', '^_ZN[0-9]+[A-Za-z]*FailureD[012]E']},
         'obligations': [{'fn': 'harness_two_tests_%s' % k, 'tier': ('quick' if k in ('1_0', '0_0') else 'thorough'),   # 2_1 and 3_3: the SAT back end runs out of the 25 GB cap (not claimed)
                          'unwind': 6, 'timeout': 2400, 'cbmc_flags': ['--max-field-sensitivity-array-size', '128'], 'unwindset': ['_ZN12SimpleString6StrCmpEPKcS1_.0:28', '_ZN12SimpleString6StrLenEPKc.0:40', '_ZN12SimpleString7StrNCpyEPcPKcm.0:40', 'env_fputs.0:40'], 'bounds': 'two consecutive tests: %s; expected-leak counts 0..3, ignore flags and own pass/fail of both tests symbolic' % d} for k, d in D.items() if k not in ('2_1', '3_3')],
+    }, {
+        # one hash bucket: any two live blocks share a chain, so the chain walks of the leak report and of the
+        # end-of-period marking are exercised with a successor present (seeded C07-r4)
+        'name': 'plugin1', 'wrapper': 'w07.cpp', 'harness': 'h07.c',
+        'config': {'memleak': True, 'stubs': STUBS, 'defines': ['-DCPPUTEST_VERIF_HASH_TABLE_SIZE=1'], 'heapcheck': False, 'empty_regex': ['^_ZN[0-9]+[A-Za-z]*FailureC[12]E', '^_ZN[0-9]+[A-Za-z]*FailureD[012]E']},
+        'obligations': [{'fn': 'harness_two_tests_9_0', 'tier': 'quick', 'unwind': 6, 'timeout': 2400, 'cbmc_flags': ['--max-field-sensitivity-array-size', '128'], 'unwindset': ['_ZN12SimpleString6StrCmpEPKcS1_.0:28', '_ZN12SimpleString6StrLenEPKc.0:40', '_ZN12SimpleString7StrNCpyEPcPKcm.0:40', 'env_fputs.0:40'],
+                         'bounds': 'two consecutive tests, ONE hash bucket: test 1 leaks two blocks (same chain), test 2 allocates nothing; expected-leak counts 0..3, ignore flags and own pass/fail of both tests symbolic'}],
     }],
 }
